@@ -60,7 +60,7 @@ fn op() -> impl Strategy<Value = Op> {
 fn conc_case() -> impl Strategy<Value = ConcCase> {
     // roots with a history behind them: recurrence-heavy small games (so that repetition lookups have
     // something to find) as well as ordinary ones
-    let params = GameParams { max_ops: 160, w_setup: 1, w_pos: 3, w_small: 6, w_frozen: 1, hanging: false, w_motif: 0 };
+    let params = GameParams { max_ops: 160, w_setup: 1, w_pos: 3, w_small: 6, w_frozen: 1, hanging: false, w_motif: 0, w_open: 0 };
     let prog = (prop::collection::vec(op(), 1..6), 0u8..4, prop::collection::vec(op(), 0..4)).prop_map(|(phase1, hand, phase2)| Prog { phase1, hand, phase2 });
     (gen::game(params), prop_oneof![1 => Just(Profile::Normal), 3 => Just(Profile::Cycle), 1 => Just(Profile::Fight)], prop::collection::vec(prog, 2..=8))
         .prop_map(|(game, profile, progs)| ConcCase { game, profile, progs })
